@@ -116,72 +116,74 @@ def setStateCode (s : SetState) : R Bytes :=
 theorem setStateBody_eq (s : SetState) : setStateCode s = setStateBody s := by
   first
   | (
+      obtain ⟨beep, power, tempCenti, mode, fan, eco, swing, turbo, fahrenheit, sleep, freeze, followMe, purifier, humidity,
+        auxHeat, forceAuxHeat, indepAuxHeat⟩ := s
       unfold setStateCode Codec.setStateBody Model.setStateBody
-      by_cases hf : s.fan < 0 ∨ s.fan > 255
+      simp only []
+      by_cases hf : fan < 0 ∨ fan > 255
       · rw [if_pos hf]
-        exact bytesOf_bad [64, _, _] s.fan _ hf
+        exact bytesOf_bad [64, _, _] fan _ hf
       · rw [if_neg hf]
         refine Eq.trans (congrArg Py.bytesOf ?_) (bytesOf_ok _)
-        simp only [List.map_cons, List.map_nil, tdiv_cancel]
-        refine List.cons_eq_cons.mpr ⟨rfl, ?_⟩
-        refine List.cons_eq_cons.mpr ⟨b1 _ _, ?_⟩
-        refine List.cons_eq_cons.mpr ⟨?b2, ?_⟩
-        case b2 =>
-          unfold tempByte usePrimary integralTemp fracPositive
-          rw [band_7]
-          simp only [Bool.and_eq_true, decide_eq_true_eq, Bool.decide_and]
-          generalize s.tempCenti.tdiv 100 = I
-          have hm : ((s.mode : Int) % 8) = ((s.mode % 8 : Nat) : Int) := by omega
-          rw [hm]
-          have hmlt : s.mode % 8 < 8 := Nat.mod_lt _ (by decide)
-          by_cases hP : 17 ≤ I ∧ I ≤ 30
-          · rw [if_pos hP, if_pos hP, band_15]
-            have hk : (I - 16) % 16 = (((I - 16).toNat : Nat) : Int) := by omega
-            rw [hk, Int.toNat_natCast]
-            have hklt : (I - 16).toNat < 16 := by omega
-            by_cases hfr : s.tempCenti.tmod 100 > 0
-            · rw [if_pos hfr, if_pos hfr]; exact b2_fin _ hklt true _ hmlt
-            · rw [if_neg hfr, if_neg hfr]; exact b2_fin _ hklt false _ hmlt
-          · rw [if_neg hP, if_neg hP]
-            by_cases hfr : s.tempCenti.tmod 100 > 0
-            · rw [if_pos hfr, if_pos hfr]; exact b2_fin 0 (by decide) true _ hmlt
-            · rw [if_neg hfr, if_neg hfr]; exact b2_fin 0 (by decide) false _ hmlt
-        refine List.cons_eq_cons.mpr ⟨?b3, ?_⟩
+        simp only [List.map_cons, List.map_nil, tdiv_cancel, List.cons.injEq, and_true]
+        have hcs : Generated.controlSource.toUInt8 = 2 := rfl
+        refine ⟨rfl, ?b1, ?b2, ?b3, rfl, rfl, rfl, ?b7, ?b8, ?b9, ?b10, rfl, rfl, rfl, rfl, rfl, rfl, rfl, ?b18, ?b19, rfl, ?b21, ?b22, rfl⟩
+        case b1 => cases beep <;> cases power <;> rfl
+        case b8 => cases followMe <;> cases turbo <;> rfl
+        case b9 => cases eco <;> cases purifier <;> cases forceAuxHeat <;> cases auxHeat <;> rfl
+        case b10 => cases sleep <;> cases turbo <;> cases fahrenheit <;> rfl
+        case b21 => cases freeze <;> rfl
+        case b22 => cases indepAuxHeat <;> rfl
         case b3 =>
-          have h : s.fan.toNat < 256 := by omega
+          have h : fan.toNat < 256 := by omega
           rw [u8_lt _ h]; omega
-        refine List.cons_eq_cons.mpr ⟨rfl, ?_⟩
-        refine List.cons_eq_cons.mpr ⟨rfl, ?_⟩
-        refine List.cons_eq_cons.mpr ⟨rfl, ?_⟩
-        refine List.cons_eq_cons.mpr ⟨?b7, ?_⟩
         case b7 =>
-          rw [band_63]
-          have h := b7_fin (s.swing % 64) (Nat.mod_lt _ (by decide))
-          have e : ((s.swing : Int) % 64) = ((s.swing % 64 : Nat) : Int) := by omega
-          rw [e]; exact h
-        refine List.cons_eq_cons.mpr ⟨b8 _ _, ?_⟩
-        refine List.cons_eq_cons.mpr ⟨b9 _ _ _ _, ?_⟩
-        refine List.cons_eq_cons.mpr ⟨b10 _ _ _, ?_⟩
-        iterate 7 refine List.cons_eq_cons.mpr ⟨rfl, ?_⟩
-        refine List.cons_eq_cons.mpr ⟨?b18, ?_⟩
+          simp only [band_63]
+          have e : ((swing : Int) % 64) = ((swing % 64 : Nat) : Int) := by omega
+          rw [e]
+          have hk : swing % 64 < 64 := Nat.mod_lt _ (by decide)
+          generalize swing % 64 = k at hk ⊢
+          revert k; decide +kernel
+        case b19 =>
+          simp only [band_127]
+          have e : ((humidity : Int) % 128) = ((humidity % 128 : Nat) : Int) := by omega
+          rw [e]
+          have hk : humidity % 128 < 128 := Nat.mod_lt _ (by decide)
+          generalize humidity % 128 = k at hk ⊢
+          revert k; decide +kernel
         case b18 =>
           unfold tempAltByte usePrimary integralTemp
-          simp only [Bool.and_eq_true, decide_eq_true_eq, Bool.decide_and]
-          split
-          · rfl
-          · rw [band_31]
-            have hlt : ((s.tempCenti.tdiv 100 - 12) % 32).toNat < 32 := by omega
-            rw [← b18_fin _ hlt]; omega
-        refine List.cons_eq_cons.mpr ⟨?b19, ?_⟩
-        case b19 =>
-          rw [band_127]
-          have h := b19_fin (s.humidity % 128) (Nat.mod_lt _ (by decide))
-          rw [Nat.mod_mod] at h
-          rw [← h]; omega
-        refine List.cons_eq_cons.mpr ⟨rfl, ?_⟩
-        refine List.cons_eq_cons.mpr ⟨b21 _, ?_⟩
-        refine List.cons_eq_cons.mpr ⟨b22 _, ?_⟩
-        rfl)
+          simp only [band_31, Bool.and_eq_true, decide_eq_true_eq, Bool.decide_and]
+          generalize tempCenti.tdiv 100 = I
+          by_cases hP : 17 ≤ I ∧ I ≤ 30
+          · simp only [hP, and_self, if_true]; rfl
+          · simp only [hP, if_false]
+            have e : (I - 12) % 32 = ((((I - 12) % 32).toNat : Nat) : Int) := by omega
+            rw [e, Int.toNat_natCast]
+            have hk : ((I - 12) % 32).toNat < 32 := by omega
+            generalize ((I - 12) % 32).toNat = k at hk ⊢
+            revert k; decide +kernel
+        case b2 =>
+          unfold tempByte usePrimary integralTemp fracPositive
+          simp only [band_7, band_15, Bool.and_eq_true, decide_eq_true_eq, Bool.decide_and]
+          generalize tempCenti.tdiv 100 = I
+          have hm : ((mode : Int) % 8) = ((mode % 8 : Nat) : Int) := by omega
+          rw [hm]
+          have hmlt : mode % 8 < 8 := Nat.mod_lt _ (by decide)
+          generalize mode % 8 = m at hmlt ⊢
+          by_cases hP : 17 ≤ I ∧ I ≤ 30
+          · simp only [hP, and_self, if_true]
+            have e : (I - 16) % 16 = ((((I - 16)).toNat : Nat) : Int) := by omega
+            rw [e, Int.toNat_natCast]
+            have hk : (I - 16).toNat < 16 := by omega
+            generalize (I - 16).toNat = k at hk ⊢
+            by_cases hfr : tempCenti.tmod 100 > 0
+            · simp only [hfr, if_true]; revert k m; decide +kernel
+            · simp only [hfr, if_false]; revert k m; decide +kernel
+          · simp only [hP, if_false]
+            by_cases hfr : tempCenti.tmod 100 > 0
+            · simp only [hfr, if_true]; revert m; decide +kernel
+            · simp only [hfr, if_false]; revert m; decide +kernel)
   | (-- the translator reported `unsupported`: `Codec.setStateBody` is the model itself
      cases s; simp [setStateCode, Codec.setStateBody])
 
